@@ -3,7 +3,7 @@
 # Applies a patch to a scratch copy of /repo (outside /repo and /verif), runs ./check <ID> against it, removes the copy.
 # Exit status: that of the check (1 = the mutant was detected).
 set -u
-cd "$(dirname "$0")/.."
+cd "$(dirname "$0")/.."; VERIF_ROOT="$(pwd)"
 if [ "$1" = "--revert" ]; then MODE=revert; WHAT="$2"; shift 2; else MODE=patch; WHAT="$(realpath "$1")"; shift; fi
 ID="$1"; TIER="${2:-quick}"
 SCR="$HOME/.cache/verif-scratch/m$$-$RANDOM"
@@ -18,6 +18,6 @@ else
   git -C /repo show "$WHAT" | ( git init -q . >/dev/null 2>&1; git apply -R ) || { echo "REVERT-FAILED $WHAT"; exit 3; }
 fi
 rm -rf .git
-cd /verif
+cd "$VERIF_ROOT"
 VERIF_REPO="$SCR/lime-go" VERIF_OUT="$SCR/out" ./check "$ID" --tier "$TIER" 2>&1 | grep -E '^(VIOLATION|KNOWN-FINDING|SUMMARY|BUILD-FAILED|NOTE)' | cut -c1-400 | sed -n "1,${MUTANT_LINES:-8}p"
 exit ${PIPESTATUS[0]}
